@@ -74,6 +74,16 @@ func (f *Filter) SetResponseModifier(resmod martian.ResponseModifier) {
 	f.resmod = resmod
 }
 
+// hasPort reports whether host declares a port explicitly. The colons inside
+// a bracketed IPv6 literal ("[2001:db8::1]") are part of the address, only a
+// colon after the closing bracket separates a port.
+func hasPort(host string) bool {
+	if strings.HasPrefix(host, "[") {
+		return strings.Contains(host[strings.LastIndex(host, "]")+1:], ":")
+	}
+	return strings.Contains(host, ":")
+}
+
 // ModifyRequest runs the modifier if the port matches the provided port.
 func (f *Filter) ModifyRequest(req *http.Request) error {
 	var defaultPort int
@@ -84,8 +94,7 @@ func (f *Filter) ModifyRequest(req *http.Request) error {
 		defaultPort = 443
 	}
 
-	hasPort := strings.Contains(req.URL.Host, ":")
-	if hasPort {
+	if hasPort(req.URL.Host) {
 		_, p, err := net.SplitHostPort(req.URL.Host)
 		if err != nil {
 			return err
@@ -119,10 +128,10 @@ func (f *Filter) ModifyResponse(res *http.Response) error {
 		defaultPort = 443
 	}
 
-	if !strings.Contains(res.Request.URL.Host, ":") && (f.port == defaultPort) {
+	if !hasPort(res.Request.URL.Host) && (f.port == defaultPort) {
 		return f.resmod.ModifyResponse(res)
 	}
-	if !strings.Contains(res.Request.URL.Host, ":") {
+	if !hasPort(res.Request.URL.Host) {
 		// no port explicitly declared and the filter's port is not the default
 		// port of the scheme: no match (as in ModifyRequest).
 		return nil
